@@ -67,7 +67,9 @@ func loadNotebookFrom(d *simos.Disk, path string) ([]database.Command, error) {
 	simos.Mount(d.Clone(), nil)
 	defer simos.Unmount()
 	simrt.SetOrderCanonical()
-	db, err := database.LoadDatabase(path)
+	var db *database.Database
+	var err error
+	inSim(nil, func() { db, err = database.LoadDatabase(path) })
 	if err != nil {
 		return nil, err
 	}
